@@ -12,6 +12,7 @@ clauses on the structured clusters + delimiter soup + document encodings.
 import json
 import os
 import re
+import time
 from concurrent.futures import ThreadPoolExecutor, ProcessPoolExecutor
 
 from harness import tlc
@@ -83,8 +84,8 @@ def plan(pid, tier, seed):
     quick = tier == 'quick'
     if pid == 'C10':
         if quick:
-            return [('A0', 1, V_ALL), ('A2', 1, V_AUTH), ('A3', 1, V_AUTH), ('A1', 12, V_AUTH), ('B', 12, V_PATH),
-                    ('C', 10, V_PATH), ('D', 200, V_ALL), ('E', 1, ())]
+            return [('A0', 1, V_ALL), ('A2', 1, V_AUTH), ('A3', 1, V_AUTH), ('A1', 16, V_AUTH), ('B', 12, V_PATH),
+                    ('C', 10, V_PATH), ('D', 300, V_ALL), ('E', 1, ())]
         return [('A0', 1, V_ALL), ('A2', 1, V_AUTH), ('A3', 1, V_AUTH), ('A1', 1, V_AUTH), ('B', 1, V_PATH),
                 ('C', 1, V_PATH), ('D', 4, V_ALL), ('E', 1, ('fragment',))]
     if quick:
@@ -98,17 +99,18 @@ def plan(pid, tier, seed):
 def _exec_chunk(args):
     from harness import wpull_compat  # noqa: F401
     from drivers import urlnorm_exec
-    fams, joins = args
-    return urlnorm_exec.run_families(fams, joins)
+    fams, full = args
+    return urlnorm_exec.run_families(fams, full, full)
 
 
-def execute(fams, joins, procs=6):
-    if len(fams) < 3000:
-        return _exec_chunk((fams, joins))
-    chunks = [fams[i:i + 1500] for i in range(0, len(fams), 1500)]
+def execute(fams, full, procs=6):
+    """full: C11 (accessors, parse_url_or_log, joins); otherwise only what C10 observes."""
+    if len(fams) < 2000:
+        return _exec_chunk((fams, full))
+    chunks = [fams[i:i + 1000] for i in range(0, len(fams), 1000)]
     out = []
     with ProcessPoolExecutor(max_workers=procs) as ex:
-        for part in ex.map(_exec_chunk, [(c, joins) for c in chunks]):
+        for part in ex.map(_exec_chunk, [(c, full) for c in chunks]):
             out.extend(part)
     return out
 
@@ -146,7 +148,12 @@ def trace_traces(records):
 
 
 def _validate(module, cfg, traces, chunk, par):
-    parts = [traces[i:i + chunk] for i in range(0, len(traces), chunk)]
+    # balanced chunks: at most `chunk` traces each, a multiple of `par` runs when there is more than one
+    n = max(1, -(-len(traces) // chunk))
+    if n > 1:
+        n = -(-n // par) * par
+    size = max(1, -(-len(traces) // n))
+    parts = [traces[i:i + size] for i in range(0, len(traces), size)]
     with ThreadPoolExecutor(max_workers=par) as ex:
         results = list(ex.map(lambda p: tlc.validate_batch(module, cfg, p, depth_first=False, heap='2g'), parts))
     verdicts, stats = [], {'states': 0, 'distinct': 0, 'wall_s': 0.0, 'runs': 0}
@@ -157,13 +164,13 @@ def _validate(module, cfg, traces, chunk, par):
     return verdicts, stats
 
 
-def monitor(prop, traces, chunk=2500, par=6):
+def monitor(prop, traces, chunk=3000, par=8):
     cfg = ('SPECIFICATION MSpec\nCONSTANTS %s Prop = "%s"\nCONSTRAINT Record\nPOSTCONDITION Post\nCHECK_DEADLOCK FALSE\n'
            % (fix_consts(), prop))
     return _validate('UrlNormMon', cfg, traces, chunk, par)
 
 
-def strict(traces, chunk=1500, par=6):
+def strict(traces, chunk=2500, par=8):
     cfg = ('SPECIFICATION TSpec\nCONSTANTS %s\nCONSTRAINT Record\nPOSTCONDITION Post\nCHECK_DEADLOCK FALSE\n'
            % fix_consts())
     return _validate('UrlNormTrace', cfg, traces, chunk, par)
@@ -220,7 +227,13 @@ def signature_c10(clause, rec, base, enc):
     url = _s(rec['url'])
     sig = {'clause': clause}
     if enc != 'utf-8':
-        sig['encoding'] = 'non-utf-8'
+        try:
+            compatible = 'a/?'.encode(enc) == b'a/?'
+        except Exception:   # noqa
+            compatible = False
+        if not compatible:
+            sig['encoding'] = 'ascii-incompatible'
+            return sig      # the output is not even a URL: no finer classification
     parts = split_url(url)
     if clause in _TESTS:
         names = ('scheme', 'host') if clause == 'LowerSchemeHost' else ('scheme', 'userinfo', 'host', 'port', 'path', 'query')
@@ -255,6 +268,8 @@ def signature_c10(clause, rec, base, enc):
                 sig['host'] = '%s|%s' % tuple(sorted((host_shape(split_url(_s(base['url']))['host']), host_shape(parts['host']))))
         else:
             sig['outcomes'] = sorted(set(['network-url' if bnet else base['oc'], 'network-url' if rnet else rec['oc']]))
+    if enc != 'utf-8' and (sig.get('where') or sig.get('differs')) in ('userinfo', 'path', 'query'):
+        sig['encoding'] = 'ascii-compatible'       # (only these components go through the document codec)
     return sig
 
 
@@ -292,12 +307,14 @@ def run(chk):
     clauses = C10_CLAUSES if c10 else C11_CLAUSES
     pl = plan(pid, chk.tier, chk.seed)
 
+    timing = {}
+    t0 = time.time()
     # ---- 1. generation + design check (TLC)
     def gen(entry):
         cluster, mod, variants = entry
         return generate(cluster, mod, chk.seed % mod, variants, True, C10_INVS if c10 else C11_INVS,
-                        workers=3 if quick else 4)
-    with ThreadPoolExecutor(max_workers=4) as ex:
+                        workers=2 if quick else 4)
+    with ThreadPoolExecutor(max_workers=8 if quick else 4) as ex:
         gens = list(ex.map(gen, pl))
     fams = []
     consts = []
@@ -311,17 +328,25 @@ def run(chk):
         fams.extend(fs)
     chk.constants = {'clusters': consts, 'fix_constants': FIX}
 
+    timing['generate_and_design_s'] = round(time.time() - t0, 1)
     # ---- 2. the real code
-    records = execute(fams, joins=not c10)
+    t0 = time.time()
+    records = execute(fams, full=not c10)
     nmembers = sum(len(r) for r in records)
+    timing['execute_real_s'] = round(time.time() - t0, 1)
+    t0 = time.time()
 
     # ---- 3. TLC on the real outputs
     mtr, mindex = mon_traces(records)
     mv, mst = monitor(pid, mtr)
     chk.trace_stats(mst)
+    timing['monitor_s'] = round(time.time() - t0, 1)
+    t0 = time.time()
     ttr, tindex = trace_traces(records)
     sv, sst = strict(ttr)
     chk.trace_stats(sst)
+    timing['strict_s'] = round(time.time() - t0, 1)
+    chk.extra['timing'] = timing
 
     from drivers import urlnorm_exec
     chk.extra['log_records_formatted'] = urlnorm_exec.SINK.records
